@@ -6,6 +6,7 @@
 
 From Coq Require Import List ZArith.
 From IprV Require Import RBModel RBProofs Comparators.
+From IprV Require StateSpace.
 Import ListNotations.
 
 Section C08.
@@ -76,6 +77,12 @@ Example c08_nonvacuous :
   exists t, inserts Z int_cmp E [5; 3; 8; 1; 4; 7; 9; 2; 6]%Z = Some t /\ size Z t = 9.
 Proof. split; [vm_compute; discriminate | eexists; split; vm_compute; reflexivity]. Qed.
 
+(* a tree node is three links and a colour, a tree is a root and a count: the state of the RBModel (StateSpace.v against the regenerated GenState) *)
+Theorem c08_state_is_what_the_model_abstracts :
+  StateSpace.state_as_modelled (StateSpace.tree_state) = true.
+Proof. vm_compute. reflexivity. Qed.
+
+Print Assumptions c08_state_is_what_the_model_abstracts.
 Print Assumptions c08_inserts_rb.
 Print Assumptions c08_insert_preserves_rb.
 Print Assumptions c08_height_bound.
